@@ -88,4 +88,30 @@ inductive CReach (step : CSt → CSt → Prop) : CSt → Prop where
   | init : CReach step {}
   | step (s s' : CSt) (h : CReach step s) (hs : step s s') : CReach step s'
 
+/-! ### `runOnBoth` of the dual sweeping-provider wrapper (provider/dual/provider.go): the LAN side runs in a goroutine,
+    the WAN side inline; the helper returns after it has received the LAN side's result -/
+
+structure BSt where
+  wanDone : Bool := false
+  wanErr : Bool := false
+  lanDone : Bool := false
+  returned : Bool := false
+  deriving DecidableEq, Repr
+
+inductive BStep : BSt → BSt → Prop where
+  | wan (s : BSt) (err : Bool) (h : s.wanDone = false) : BStep s { s with wanDone := true, wanErr := err }
+  | lan (s : BSt) (h : s.lanDone = false) : BStep s { s with lanDone := true }
+  /-- `lanErr := <-errCh; return errors.Join(lanErr, err)`: only once both are done -/
+  | ret (s : BSt) (h1 : s.wanDone = true) (h2 : s.lanDone = true) : BStep s { s with returned := true }
+
+/-- the seeded variant C14-m6: `return` straight from the WAN error branch -/
+inductive BStepEarly : BSt → BSt → Prop where
+  | wan (s : BSt) (err : Bool) (h : s.wanDone = false) : BStepEarly s { s with wanDone := true, wanErr := err }
+  | lan (s : BSt) (h : s.lanDone = false) : BStepEarly s { s with lanDone := true }
+  | ret (s : BSt) (h1 : s.wanDone = true) (h2 : s.lanDone = true ∨ s.wanErr = true) : BStepEarly s { s with returned := true }
+
+inductive BReach (step : BSt → BSt → Prop) : BSt → Prop where
+  | init : BReach step {}
+  | step (s s' : BSt) (h : BReach step s) (hs : step s s') : BReach step s'
+
 end KadDHT.Life
